@@ -71,7 +71,7 @@ def chain_specs(wd, case, cps, r0):
     return specs
 
 
-def run_jobs(ctx, tag, jobs):
+def run_jobs(ctx, tag, jobs, workers=WORKERS):
     """jobs = [[spec, ...], ...] (one list per chain, run in order).  Returns the reports per chain."""
     base = work_root(ctx)
     os.makedirs(base, exist_ok=True)
@@ -80,7 +80,7 @@ def run_jobs(ctx, tag, jobs):
             os.makedirs(os.path.dirname(sp["out"]), exist_ok=True)
             if os.path.exists(sp["out"]):
                 os.remove(sp["out"])
-    nb = max(1, min(WORKERS, len(jobs)))
+    nb = max(1, min(workers, len(jobs)))
     slices = [jobs[i::nb] for i in range(nb)]
 
     def batch(i):
@@ -419,7 +419,7 @@ class C25(C.Check):
                                          snap_rule={"level": "kill", "dir": self.wd(ctx, "snapr%d" % gi)})])
         import time
         t0 = time.time()
-        reps1 = run_jobs(ctx, "ref", jobs)
+        reps1 = run_jobs(ctx, "ref", jobs, workers=3 if ctx.quick else WORKERS)
         t1 = time.time()
         refs = []
         for gi, (case, corp, plan, modelled, _) in enumerate(groups):
@@ -503,7 +503,7 @@ class C25(C.Check):
                 modes[m] = modes.get(m, 0) + 1
             if any(0 < k < len(ref["ops"]) for k, _, _ in cps):
                 nontrivial.add((gi, r0, tuple(cps)))
-        bad = C.eval_cases(self.prop, "corr", HEADER, checks, shard=40)
+        bad = C.eval_cases(self.prop, "corr", HEADER, checks, shard=25)
         res.notes.append("wall: reference+snapshot runs %.1fs, %d restarts/real chains %.1fs, model evaluation in coqc %.1fs"
                          % (t1 - t0, len(jobs), t3 - t2, time.time() - t3))
         for i in bad[:4]:
